@@ -209,8 +209,13 @@ def explicit_schedule(trace_text):
     return [ln.split()[1] for ln in trace_text.splitlines() if ln.startswith('Q ')]
 
 
+MCS_BITS = ['CppUtil.Props.McsBits.add_s', 'CppUtil.Props.McsBits.sub_s', 'CppUtil.Props.McsBits.xor_xmask',
+            'CppUtil.Props.McsBits.link_add', 'CppUtil.Props.McsBits.masks', 'CppUtil.Props.McsBits.publish_keeps_link',
+            'CppUtil.Props.McsBits.last_shared_test', 'CppUtil.Props.McsBits.publish_is_rmw']
+
+
 class LockCheck(Check):
-    components = ['pess', 'opt']
+    components = ['pess', 'opt', 'mcs']
     categories = []         # monitor message prefixes relevant to this property
     stuck_relevant = False  # end=stuck counts as a violation of this property
     counts = {'quick': 400, 'thorough': 6000}
@@ -229,6 +234,18 @@ class LockCheck(Check):
         if 'mcs' in self.components:
             pre.append('MCSLock::')
         return pre
+
+    extra_modules = []
+
+    def static_part(self):
+        ok = super().static_part()
+        for mod in self.extra_modules:
+            ok2, out = common.lake_build([mod])
+            if not ok2:
+                self.proof['build_ok'] = False
+                self.proof['build_output'] += f' [{mod}] ' + out[-2000:]
+                ok = False
+        return ok
 
     def relevant_failure(self, r):
         """r: parsed RES dict. Returns message if r shows a violation of this property."""
@@ -371,6 +388,7 @@ class C01(LockCheck):
     lean_module = 'CppUtil.Props.C01'
     theorems = ['CppUtil.Props.c01_pess', 'CppUtil.Props.c01_opt', 'CppUtil.Props.c01_word_counts_pess',
                 'CppUtil.Props.c01_word_counts_opt', 'CppUtil.WLock.pess_specs', 'CppUtil.WLock.opt_specs']
+    extra_modules = ['CppUtil.Props.McsBits']
     categories = ['excl', 'payload']
     design_ref = '6 C01'
 
@@ -381,6 +399,7 @@ class C02(LockCheck):
                 'CppUtil.Props.c02_blocked_upgrade_pess', 'CppUtil.Props.c02_blocked_upgrade_opt',
                 'CppUtil.Props.c02_blocked_reader_opt', 'CppUtil.Props.c02_solo_acquire',
                 'CppUtil.Props.c02_quiescent_free_pess', 'CppUtil.Props.c02_quiescent_free_opt']
+    extra_modules = ['CppUtil.Props.McsBits']
     categories = []
     stuck_relevant = True
 
@@ -433,6 +452,24 @@ class C13(LockCheck):
     categories = ['prepare']
 
 
+class C11(LockCheck):
+    lean_module = 'CppUtil.Props.C11'
+    components = ['mcs']
+    theorems = ['CppUtil.Props.c11_tail_word', 'CppUtil.Props.c11_join_keeps_tail'] + MCS_BITS
+    categories = ['fifo']
+
+
+class C12(LockCheck):
+    lean_module = 'CppUtil.Props.C12'
+    components = ['mcs']
+    theorems = ['CppUtil.Props.c12_unlockS_recycle_test', 'CppUtil.Props.c12_unlockX_recycle_test',
+                'CppUtil.Props.c12_unlockS_tail_test'] + MCS_BITS
+    categories = ['nodes']
+
+    def crash_relevant(self):
+        return True
+
+
 PROPS = {
-    'C01': C01, 'C02': C02, 'C03': C03, 'C07': C07, 'C09': C09, 'C10': C10, 'C13': C13,
+    'C01': C01, 'C11': C11, 'C12': C12, 'C02': C02, 'C03': C03, 'C07': C07, 'C09': C09, 'C10': C10, 'C13': C13,
 }
